@@ -494,6 +494,8 @@ def r3_8(repo: Repo) -> RuleResult:
             elif isinstance(st, ast.If):
                 if is_orient_test(st.test):
                     n += count(_dispatch_arm(st, key, "per-window list"), key, lst)
+                elif isinstance(st.test, ast.Constant):
+                    n += count(st.body if st.test.value else st.orelse, key, lst)
                 else:
                     arms = []
                     cur = st
